@@ -1,7 +1,7 @@
 SPECIFICATION Spec
 CONSTANTS
   Names = {"a", "a.b"}
-  Wide = FALSE
+  Level = 1
 INVARIANTS
   Design
   Emit
